@@ -202,6 +202,17 @@ class Universe:
         finally:
             started.set()
 
+    async def _cancelled_listener(self, idx: int, ctx: Any, started: asyncio.Event) -> None:
+        """A listener that gives up: it is cancelled while it waits for its first event (its subscription must be gone afterwards)."""
+        import anyio
+
+        with anyio.CancelScope() as scope:
+            async with ctx.resource_added.stream_events() as stream:
+                scope.cancel()
+                async for ev in stream:
+                    pass
+        started.set()
+
     async def _actor(self, idx: int, parent_idx: int, implicit: bool) -> None:
         from asphalt.core import Context
 
@@ -214,6 +225,9 @@ class Universe:
             await self.outbox[idx].put(("create-failed", e))
             return
         self.ctxs[idx] = ctx
+        started_c = asyncio.Event()
+        self.tg.start_soon(self._cancelled_listener, idx, ctx, started_c)
+        await started_c.wait()
         started0 = asyncio.Event()
         self.tg.start_soon(self._short_listener, idx, ctx, started0)
         await started0.wait()
